@@ -290,7 +290,10 @@ def main():
     )
     ev = dict(property_id=pid, tier=tier, seed=seed, level=cfg.get("level", "proof"), coverage=cov,
               assumptions=cfg.get("assumptions", []), wall_s=round(time.time() - t0, 1), violations=len(violations))
-    json.dump(ev, open(os.path.join(ROOT, "evidence", f"{pid}.json"), "w"), indent=1)
+    # (tools/try_mutant.py redirects the evidence of runs against a modified tree)
+    evdir = os.environ.get("VERIF_EVIDENCE_DIR") or os.path.join(ROOT, "evidence")
+    os.makedirs(evdir, exist_ok=True)
+    json.dump(ev, open(os.path.join(evdir, f"{pid}.json"), "w"), indent=1)
 
     for k in known_hit.values():
         print(f"KNOWN-FINDING: property={pid} {k['what']}")
